@@ -129,7 +129,7 @@ prop('C19', level='proof',
      note=PCHAIN + 'termination of the copy is liveness, undecided.',
      technique='CBMC contracts on work()/xread/xwrite + monitor harnesses of the copy callbacks and I/O threads',
      undecided=['termination of the copy (liveness)', 'copy() body itself (set-up of the pseudo process): no obligation'])
-prop('C20', level='model_checking',
+prop('C20', not_applicable='no obligation within reach decides it: the planned bounded check of assign_codes()/package_merge() (harness/h_assign.c, optimality oracle by enumeration) does not complete even for 3 symbols with 8-bit frequencies (SAT back ends exhaust 16 GB, z3 gives no answer in 900 s); see DESIGN.md section 6', level='model_checking',
      text='assign_codes/package_merge on the real code for small alphabets with symbolic frequencies compared with an enumerated optimum (bounded); single-table dummy '
           'code complete for all alphabet sizes (lemma).',
      note=PCHAIN + 'the 20-bit limit cannot bind at the bound; make_code_lengths not covered.',
